@@ -23,11 +23,87 @@ func init() {
 func runC12(c *Ctx) {
 	sl := c.SSAFunc("protocol", "Protocol.sendLoop")
 	key := "protocol.(*Protocol).sendLoop"
-	var tsCalls []ssa.CallInstruction
+	// transition sites: direct transitionState calls, or calls to a same-package wrapper that makes exactly one
+	// transitionState call on its own parameters and reports success (true / nil) only behind transitionState == nil
+	type tsSite struct {
+		ci      ssa.CallInstruction
+		msg     ssa.Value
+		okFact  string // edge fact in sendLoop under which the transition was accepted
+		badFact string
+		wrapper *ssa.Function
+	}
+	var sites []tsSite
 	for _, ci := range allCalls(sl) {
-		if calleeName(ci.Common()) == "protocol.(*Protocol).transitionState" {
-			tsCalls = append(tsCalls, ci)
+		cc := ci.Common()
+		if calleeName(cc) == "protocol.(*Protocol).transitionState" {
+			okF, badF := factsForValue(sl, ci.Value())
+			sites = append(sites, tsSite{ci, cc.Args[1], okF, badF, nil})
+			continue
 		}
+		h := samePkgHelper(sl, cc)
+		if h == nil || h.Parent() != nil {
+			continue
+		}
+		var inner []ssa.CallInstruction
+		for _, cj := range allCalls(h) {
+			if calleeName(cj.Common()) == "protocol.(*Protocol).transitionState" {
+				inner = append(inner, cj)
+			}
+		}
+		if len(inner) == 0 {
+			continue
+		}
+		if len(inner) != 1 {
+			c.Undecided("sendLoop: helper %s makes %d transitionState calls", h.Name(), len(inner))
+		}
+		mi := -1
+		for i, q := range h.Params {
+			if inner[0].Common().Args[1] == ssa.Value(q) {
+				mi = i
+			}
+		}
+		if mi < 0 || inner[0].Common().Args[0] != ssa.Value(h.Params[0]) || h.Signature.Results().Len() != 1 {
+			c.Undecided("sendLoop: helper %s does not apply transitionState to its own message parameter", h.Name())
+		}
+		innerOK, innerBad := factsForValue(h, inner[0].Value())
+		if innerOK == "" {
+			c.Undecided("sendLoop: helper %s does not test the result of transitionState", h.Name())
+		}
+		isBool := typeStr(h.Signature.Results().At(0).Type()) == "bool"
+		var sinks []ssa.Instruction
+		for _, in := range fnInstrs(h) {
+			r, ok := in.(*ssa.Return)
+			if !ok {
+				continue
+			}
+			rv := returnedValue(r, 0)
+			if k, isK := rv.(*ssa.Const); isK && isBool && k.Value != nil && k.Value.String() == "false" {
+				continue
+			}
+			if !isBool && definitelyNonNilErr(rv, r.Block(), 0) {
+				continue
+			}
+			sinks = append(sinks, r)
+		}
+		for i, v := range c.mustPass(h, sinks, func(f string) bool { return f == innerOK }) {
+			c.Check(v.OK, "transition-wrapper", ssaFuncKey(h)+":success", sinks[i].Pos(), "the wrapper reports success only after transitionState accepted", "the wrapper can report success although transitionState rejected the message ("+v.Witness+")")
+		}
+		for _, ef := range edgeFacts(h) {
+			if ef.Fact == innerBad {
+				c.Check(pathsReportOrShutdown(ef.From.Succs[ef.Succ]), "transition-error-reported", ssaFuncKey(h)+":"+shortArg(ef.Fact), ef.From.Succs[ef.Succ].Instrs[0].Pos(), "a rejected transition ends in SendError+return (or graceful shutdown)", "a rejected outbound transition does not stop the protocol with an error")
+			}
+		}
+		okF, badF := factsForValue(sl, ci.Value())
+		sites = append(sites, tsSite{ci, cc.Args[mi], okF, badF, h})
+	}
+	var tsCalls []ssa.CallInstruction
+	siteOf := map[ssa.CallInstruction]tsSite{}
+	for _, st := range sites {
+		if st.okFact == "" {
+			c.Bad("transition-error-reported", key+":unchecked:"+shortArg(desc(st.msg)), st.ci.Pos(), "the result of the state transition is not tested: a rejected outbound message is sent anyway")
+		}
+		tsCalls = append(tsCalls, st.ci)
+		siteOf[st.ci] = st
 	}
 	if len(tsCalls) < 2 {
 		c.Undecided("sendLoop: expected transitionState calls for queued and fresh messages, found %d", len(tsCalls))
@@ -36,7 +112,7 @@ func runC12(c *Ctx) {
 	// (1) token per transition
 	fromEntry := psReach(sl, []*ssa.BasicBlock{sl.Blocks[0]}, ready)
 	for i, ci := range tsCalls {
-		k := fmt.Sprintf("%s:transition#%d(%s)", key, i+1, shortArg(desc(ci.Common().Args[1])))
+		k := fmt.Sprintf("%s:transition#%d(%s)", key, i+1, shortArg(desc(siteOf[ci].msg)))
 		bad := ""
 		if fromEntry[ci.Block()] {
 			bad = "reachable from entry without a sendReadyChan token"
@@ -53,7 +129,7 @@ func runC12(c *Ctx) {
 	// (2) FIFO of queued transitions
 	var queuedCall, freshCall ssa.CallInstruction
 	for _, ci := range tsCalls {
-		a := desc(ci.Common().Args[1])
+		a := desc(siteOf[ci].msg)
 		if strings.HasSuffix(a, "[0]") {
 			queuedCall = ci
 		} else if strings.HasSuffix(a, ".message") {
@@ -71,9 +147,8 @@ func runC12(c *Ctx) {
 				delOK = true
 				if queuedCall != nil {
 					// removal only after the transition succeeded
-					v := c.mustPass(sl, []ssa.Instruction{ci.(ssa.Instruction)}, func(f string) bool {
-						return strings.HasPrefix(f, "call:protocol.(*Protocol).transitionState(") && strings.HasSuffix(f, "[0]) == nil")
-					})
+					qOK := siteOf[queuedCall].okFact
+					v := c.mustPass(sl, []ssa.Instruction{ci.(ssa.Instruction)}, func(f string) bool { return f == qOK })
 					c.Check(v[0].OK, "queue-fifo", key+":remove-after-success", ci.Pos(), "element 0 is removed only after its transition succeeded", "a queued transition can be dropped without having been applied ("+v[0].Witness+")")
 				}
 			}
@@ -110,13 +185,16 @@ func runC12(c *Ctx) {
 			}
 		}
 	}
-	var handoff *ssa.Select
-	for _, b := range sl.Blocks {
-		for _, in := range b.Instrs {
+	var handoff ssa.Instruction
+	for _, f := range closureFuncs(sl, 2) {
+		for _, in := range fnInstrs(f) {
 			if sel, ok := in.(*ssa.Select); ok {
 				for _, st := range sel.States {
 					if st.Send != nil && strings.HasSuffix(desc(st.Chan), ".muxerSendChan") {
-						handoff = sel
+						// the hand-off may sit in a helper of sendLoop: the call in sendLoop stands for it
+						for _, at := range liftToCaller(sl, in, 2) {
+							handoff = at
+						}
 					}
 				}
 			}
@@ -180,15 +258,25 @@ func runC12(c *Ctx) {
 	}
 	// (4) hand-off only after the first message's transition succeeded
 	if freshCall != nil {
-		okFact := "call:protocol.(*Protocol).transitionState(" + desc(freshCall.Common().Args[0]) + "," + desc(freshCall.Common().Args[1]) + ") == nil"
+		okFact := siteOf[freshCall].okFact
 		cut := cutByFacts(sl, func(f string) bool { return f == okFact })
 		r := psReach(sl, []*ssa.BasicBlock{sl.Blocks[0]}, cut)
 		c.Check(!r[handoff.Block()], "handoff-after-transition", key, handoff.Pos(), "no segment reaches the muxer unless the batch's first transition was accepted",
 			"a segment can be handed to the muxer although transitionState rejected (or never saw) the first message of the batch")
 		// error edge reports
 		for _, ef := range edgeFacts(sl) {
-			if strings.HasPrefix(ef.Fact, "call:protocol.(*Protocol).transitionState(") && strings.HasSuffix(ef.Fact, ") != nil") {
-				c.Check(pathsReportOrShutdown(ef.From.Succs[ef.Succ]), "transition-error-reported", key+":"+shortArg(ef.Fact), ef.From.Succs[ef.Succ].Instrs[0].Pos(), "a rejected transition ends in SendError+return (or graceful shutdown)", "a rejected outbound transition does not stop the protocol with an error")
+			for _, st := range sites {
+				if ef.Fact != st.badFact {
+					continue
+				}
+				if st.wrapper == nil {
+					c.Check(pathsReportOrShutdown(ef.From.Succs[ef.Succ]), "transition-error-reported", key+":"+shortArg(ef.Fact), ef.From.Succs[ef.Succ].Instrs[0].Pos(), "a rejected transition ends in SendError+return (or graceful shutdown)", "a rejected outbound transition does not stop the protocol with an error")
+				} else {
+					// the wrapper reported; the loop must end here: no dequeue, hand-off or further transition
+					after := reachAvoidBlocks(ef.From.Succs[ef.Succ], nil)
+					leaves := !after[deq.Block()] && !after[handoff.Block()]
+					c.Check(leaves, "transition-error-reported", key+":"+shortArg(ef.Fact), ef.From.Succs[ef.Succ].Instrs[0].Pos(), "after a rejected transition the send loop ends", "after a rejected outbound transition the send loop keeps running")
+				}
 			}
 		}
 	}
